@@ -3,7 +3,7 @@
    view is the hand-written files + what earlier runs left (prior) + the overlay; no absolute path, no clock.
    Only statements here; proofs in Proofs/GenSigmaProofs.v, GenProofs.v, GenBaseProofs.v, GenWitnessProofs.v. *)
 From Coq Require Import List String Bool Permutation.
-From Shoot Require Import Model.Gen Proofs.GenBaseProofs Proofs.GenProofs Proofs.GenSigmaProofs Proofs.GenMapSigmaProofs Proofs.GenNewProofs Proofs.GenFixProofs Proofs.GenResetProofs Proofs.GenWitnessProofs.
+From Shoot Require Import Model.Gen Proofs.GenBaseProofs Proofs.GenProofs Proofs.GenSigmaProofs Proofs.GenMapSigmaProofs Proofs.GenNewProofs Proofs.GenResetProofs Proofs.GenWitnessProofs.
 Import ListNotations.
 Local Open Scope string_scope.
 
@@ -90,12 +90,24 @@ Theorem C07_rest_run_independent : forall p c o1 o2 prior1 prior2,
 Proof. exact rest_run_independent. Qed.
 Print Assumptions C07_rest_run_independent.
 
-(* new, outside (a superset of) the input class of K_embed_order / K_aio_overlay_stale: no struct embeds a struct *)
+(* new -getset / -json: outside (a superset of) the input class of K_embed_order / K_aio_overlay_stale (no struct embeds a struct)
+   and of K_new_selects_generated (no generated file declares a struct `new` would select: new's own output never does) *)
 Theorem C07_new_run_independent : forall p c o1 o2 prior1 prior2,
   c_sub c = CNew -> specified c = false -> no_embedding (hand_of (p_hw p)) ->
+  no_eligible_gen CNew (disk_of p prior1) -> no_eligible_gen CNew (disk_of p prior2) ->
   run_generate o1 p prior1 c = run_generate o2 p prior2 c.
 Proof. exact new_run_independent. Qed.
 Print Assumptions C07_new_run_independent.
+
+(* new WITHOUT -getset, embedding allowed: directories that hold no accessor interface (a run without -getset never writes
+   one) and no selectable generated struct *)
+Theorem C07_new_noget_run_independent : forall o1 o2 c hw disk1 disk2 st1 st2,
+  c_getset c = false -> specified c = false ->
+  iface_free disk1 -> iface_free disk2 -> no_eligible_gen CNew disk1 -> no_eligible_gen CNew disk2 ->
+  generate (new_make c) nrender (list_types_of CNew) c o1 hw disk1 st1 =
+  generate (new_make c) nrender (list_types_of CNew) c o2 hw disk2 st2.
+Proof. exact new_noget_unspecified_independent. Qed.
+Print Assumptions C07_new_noget_run_independent.
 
 (* ... and with -type=A,B when every named type is declared in one file in both directory states *)
 Theorem C07_blind_specified_independent :
@@ -109,9 +121,25 @@ Theorem C07_blind_specified_independent :
 Proof. exact @generate_blind_specified. Qed.
 Print Assumptions C07_blind_specified_independent.
 
-(* hence running twice is a fixpoint (one file per type: Clean does nothing) *)
+(* hence running twice is a fixpoint.  Generic form: whenever Clean is not active (-sep, -type=A,B, or -file=f: the usual
+   //go:generate line, all-in-one included) and the source map computed over the directory the first run left equals the one
+   computed over the directory it found, the second run rewrites the same files and leaves the same listing *)
+Theorem C07_twice_is_fixpoint_generic : forall p c,
+  (forall v dir, clean c (all_in_one_file c v) dir = dir) ->
+  forall o1 o2 prior w dir,
+    legal o1 -> legal o2 -> NoDup (keys prior) ->
+    run o1 p prior c = ODone w dir ->
+    run_generate o2 p dir c = run_generate o1 p prior c ->
+    exists w' dir', run o2 p dir c = ODone w' dir' /\ listing dir' = listing dir /\ Permutation w' w.
+Proof. exact run_twice_fixpoint. Qed.
+Print Assumptions C07_twice_is_fixpoint_generic.
+
+Theorem C07_clean_inactive : forall c, separate c = true \/ c_file c <> "" -> forall v dir, clean c (all_in_one_file c v) dir = dir.
+Proof. exact clean_inactive. Qed.
+Print Assumptions C07_clean_inactive.
+
 Theorem C07_enum_twice_is_fixpoint : forall p c o1 o2 prior w dir,
-  c_sub c = CEnum -> specified c = false -> c_sepflag c = true ->
+  c_sub c = CEnum -> specified c = false -> c_sepflag c = true \/ c_file c <> "" ->
   legal o1 -> legal o2 -> NoDup (keys prior) ->
   run o1 p prior c = ODone w dir ->
   exists w' dir', run o2 p dir c = ODone w' dir' /\ listing dir' = listing dir /\ Permutation w' w.
@@ -119,7 +147,7 @@ Proof. exact enum_twice_fixpoint. Qed.
 Print Assumptions C07_enum_twice_is_fixpoint.
 
 Theorem C07_rest_twice_is_fixpoint : forall p c o1 o2 prior w dir,
-  c_sub c = CRest -> specified c = false -> c_sepflag c = true -> rest_pkg_ok (p_hw p) ->
+  c_sub c = CRest -> specified c = false -> c_sepflag c = true \/ c_file c <> "" -> rest_pkg_ok (p_hw p) ->
   legal o1 -> legal o2 -> NoDup (keys prior) ->
   run o1 p prior c = ODone w dir ->
   exists w' dir', run o2 p dir c = ODone w' dir' /\ listing dir' = listing dir /\ Permutation w' w.
@@ -127,38 +155,18 @@ Proof. exact rest_twice_fixpoint. Qed.
 Print Assumptions C07_rest_twice_is_fixpoint.
 
 Theorem C07_new_twice_is_fixpoint : forall p c o1 o2 prior w dir,
-  c_sub c = CNew -> specified c = false -> c_sepflag c = true -> no_embedding (hand_of (p_hw p)) ->
+  c_sub c = CNew -> specified c = false -> c_sepflag c = true \/ c_file c <> "" -> no_embedding (hand_of (p_hw p)) ->
+  no_eligible_gen CNew (p_aux p) -> no_eligible_gen CNew prior ->
   legal o1 -> legal o2 -> NoDup (keys prior) ->
   run o1 p prior c = ODone w dir ->
   exists w' dir', run o2 p dir c = ODone w' dir' /\ listing dir' = listing dir /\ Permutation w' w.
 Proof. exact new_twice_fixpoint. Qed.
 Print Assumptions C07_new_twice_is_fixpoint.
 
-(* the usual //go:generate form `shoot <cmd> ... -file=f` (one all-in-one file; Clean is not active with -file):
-   generate twice = generate once *)
-Theorem C07_enum_twice_is_fixpoint_file : forall p c o1 o2 prior w dir,
-  c_sub c = CEnum -> specified c = false -> c_file c <> "" ->
-  legal o1 -> legal o2 -> NoDup (keys prior) ->
-  run o1 p prior c = ODone w dir ->
-  exists w' dir', run o2 p dir c = ODone w' dir' /\ listing dir' = listing dir /\ Permutation w' w.
-Proof. exact enum_twice_fixpoint_file. Qed.
-Print Assumptions C07_enum_twice_is_fixpoint_file.
-
-Theorem C07_rest_twice_is_fixpoint_file : forall p c o1 o2 prior w dir,
-  c_sub c = CRest -> specified c = false -> c_file c <> "" -> rest_pkg_ok (p_hw p) ->
-  legal o1 -> legal o2 -> NoDup (keys prior) ->
-  run o1 p prior c = ODone w dir ->
-  exists w' dir', run o2 p dir c = ODone w' dir' /\ listing dir' = listing dir /\ Permutation w' w.
-Proof. exact rest_twice_fixpoint_file. Qed.
-Print Assumptions C07_rest_twice_is_fixpoint_file.
-
-Theorem C07_new_twice_is_fixpoint_file : forall p c o1 o2 prior w dir,
-  c_sub c = CNew -> specified c = false -> c_file c <> "" -> no_embedding (hand_of (p_hw p)) ->
-  legal o1 -> legal o2 -> NoDup (keys prior) ->
-  run o1 p prior c = ODone w dir ->
-  exists w' dir', run o2 p dir c = ODone w' dir' /\ listing dir' = listing dir /\ Permutation w' w.
-Proof. exact new_twice_fixpoint_file. Qed.
-Print Assumptions C07_new_twice_is_fixpoint_file.
+(* NOT PROVED (tied by the correspondence only): the fixpoint for `-type=*` without -file (Clean active: needs
+   clean c aio (write sm (clean c aio (write sm prior))) = clean c aio (write sm prior)), for -type=A,B (follows from
+   C07_twice_is_fixpoint_generic + C07_blind_specified_independent when no generated file declares a listed type name), and every
+   history statement for map (that the mapper does not read its own ToX/FromX/ShootMap methods back). *)
 
 (* the analysis of a type never depends on the hand-written part of the view through generated files *)
 Theorem C07_hand_part_independent_of_generated_files : forall hw disk ov,
@@ -175,6 +183,12 @@ Theorem C07_refuted_K_aio_overlay_stale :
   toks_of_files (run_generate id_oracle (mkpkg hw_as2) stale_as c_as) <> toks_of_files (run_generate id_oracle (mkpkg hw_as2) [] c_as).
 Proof. exact aio_overlay_stale_history_dependent. Qed.
 Print Assumptions C07_refuted_K_aio_overlay_stale.
+
+Theorem C07_refuted_K_new_selects_generated :
+  list_types_of CNew (mk_view hw_ng [] []) = ["Order"] /\
+  list_types_of CNew (mk_view hw_ng rest_out_ng []) = ["Order"; "client"].
+Proof. exact new_selects_generated. Qed.
+Print Assumptions C07_refuted_K_new_selects_generated.
 
 (* ---- non-vacuity *)
 Example C07_example_oracles : legal id_oracle /\ legal rev_oracle.
